@@ -324,6 +324,16 @@ func (s *fullSim) observe(ev string) {
 		}
 	}
 	calls := s.be.snapshot()
+	if s.prop == "C19" && s.shut == nil {
+		// the gauges report the configured capacity and a size within [0, capacity]
+		capv, size := s.gaugeVal("otelcol_exporter_queue_capacity"), s.gaugeVal("otelcol_exporter_queue_size")
+		if capv != s.cfg.Cap {
+			r.Failf("gauge", "capacity", "queue capacity gauge reports %d, configured %d", capv, s.cfg.Cap)
+		}
+		if size < 0 || size > s.cfg.Cap {
+			r.Failf("gauge", "size-out-of-range", "queue size gauge reports %d, capacity %d", size, s.cfg.Cap)
+		}
+	}
 	if s.shut != nil && s.shut.Done() && s.shutReturnedAt == 0 {
 		s.shutReturnedAt = r.Events
 		s.callsAtReturn = len(calls)
@@ -343,6 +353,17 @@ func (s *fullSim) observe(ev string) {
 		r.Nontrivial = true
 	}
 	r.State(fmt.Sprintf("inflight=%d shut=%v done=%v calls=%d", len(s.be.gate.Parked()), s.shut != nil, s.shut != nil && s.shut.Done(), bucket(len(calls))), evKind(ev))
+}
+
+func (s *fullSim) gaugeVal(name string) int64 {
+	m, err := s.tel.GetMetric(name)
+	if err != nil {
+		return -1 << 40
+	}
+	if g, ok := m.Data.(metricdata.Gauge[int64]); ok && len(g.DataPoints) == 1 {
+		return g.DataPoints[0].Value
+	}
+	return -1 << 40
 }
 
 func (s *fullSim) counter(name string) int64 {
